@@ -16,6 +16,8 @@ import (
 	"sync"
 	"time"
 
+	"github.com/jonboulle/clockwork"
+
 	"github.com/honeycombio/refinery/collect"
 	"github.com/honeycombio/refinery/config"
 	"github.com/honeycombio/refinery/logger"
@@ -47,7 +49,16 @@ type Real struct {
 	Node    *pipeline.Node
 	Factory *sample.SamplerFactory
 	Coll    *collect.InMemCollector
-	rec     *recTracer
+	// Clock is the collector's own fake clock (starts at pipeline.T0). It is separate from Node.Clock on
+	// purpose: the node's clock carries the transmissions' stale-batch tickers, and moving it a minute
+	// forward makes clockwork fire each of them hundreds of times. In handler mode no collector loop runs,
+	// so nothing ever waits on this clock; it only answers Now().
+	Clock *clockwork.FakeClock
+	rec   *recTracer
+	// OutgoingCap is the capacity of the outgoing queue of the NEXT collector built by Reset (default 64).
+	// The real send() blocks when the queue is full (nobody drains it in handler mode): it must exceed
+	// the number of traces kept between two Send() calls.
+	OutgoingCap int
 	// Arrivals lists the spans in the order processSpan saw them (live objects).
 	Arrivals []*types.Span
 }
@@ -65,7 +76,7 @@ func Conformance() {
 func Prepare(cfg *config.MockConfig) {
 	if cfg.SampleCache.KeptSize == 0 {
 		// SizeCheckInterval: the sent cache's monitor runs on a REAL ticker; it must never fire in a run.
-		cfg.SampleCache = config.SampleCacheConfig{KeptSize: 100, DroppedSize: 2000, SizeCheckInterval: config.Duration(24 * time.Hour)}
+		cfg.SampleCache = config.SampleCacheConfig{KeptSize: 16, DroppedSize: 64, SizeCheckInterval: config.Duration(24 * time.Hour)}
 	}
 	cc := cfg.GetCollectionConfigVal
 	cc.WorkerCount = 1
@@ -79,7 +90,7 @@ func Prepare(cfg *config.MockConfig) {
 // The node's config must have been through Prepare.
 func New(n *pipeline.Node) *Real {
 	Conformance()
-	r := &Real{Node: n}
+	r := &Real{Node: n, Clock: clockwork.NewFakeClockAt(pipeline.T0)}
 	r.Factory = &sample.SamplerFactory{Config: n.Cfg, Metrics: n.Metrics, Logger: &logger.NullLogger{}}
 	if err := r.Factory.Start(); err != nil {
 		panic(fmt.Sprintf("nodecoll: sampler factory: %v", err))
@@ -90,10 +101,14 @@ func New(n *pipeline.Node) *Real {
 
 func (r *Real) fresh() {
 	c, _ := collect.VerifNewCollector(collect.VerifParams{
-		Config: r.Node.Cfg, Clock: r.Node.Clock, Transmission: r.Node.UpTx, PeerTransmission: r.Node.PeerTx,
+		Config: r.Node.Cfg, Clock: r.Clock, Transmission: r.Node.UpTx, PeerTransmission: r.Node.PeerTx,
 		Metrics: r.Node.Metrics, SamplerFactory: r.Factory,
 	})
-	if err := c.VerifStartHandlerMode(64); err != nil {
+	oc := r.OutgoingCap
+	if oc <= 0 {
+		oc = 64
+	}
+	if err := c.VerifStartHandlerMode(oc); err != nil {
 		panic(fmt.Sprintf("nodecoll: collector start (handler mode): %v", err))
 	}
 	r.rec = &recTracer{}
@@ -133,14 +148,14 @@ func (r *Real) ProcessSpanImmediately(sp *types.Span) (bool, bool) {
 	return r.Coll.ProcessSpanImmediately(sp)
 }
 
-// Decide advances the node's fake clock past every send deadline, fires the real send tick of every
+// Decide advances the collector's fake clock past every send deadline, fires the real send tick of every
 // worker and returns the decisions makeDecision took during those ticks, sorted by trace ID. Kept traces
 // are now waiting on the outgoing queue; call Send to transmit them.
 func (r *Real) Decide() []Decision {
-	r.Node.Clock.Advance(61 * time.Second) // > TraceTimeout default (60 s) > SendDelay
+	r.Clock.Advance(61 * time.Second) // > TraceTimeout default (60 s) > SendDelay
 	r.rec.decisions = nil
 	for w := 0; w < r.Coll.VerifNumWorkers(); w++ {
-		r.Coll.VerifTick(w, r.Node.Clock.Now())
+		r.Coll.VerifTick(w, r.Clock.Now())
 	}
 	out := append([]Decision(nil), r.rec.decisions...)
 	sort.SliceStable(out, func(a, b int) bool { return out[a].TraceID < out[b].TraceID })
